@@ -104,7 +104,7 @@ pub fn replay(args: &[String]) {
                 for ci in 0..nc {
                     for k in 0..np {
                         let var = (nf * q[ci][k] as f64 - (s[ci][k] * s[ci][k]) as f64) / (nf * (nf - 1.0));
-                        if !((stats[ci].sm2[k] as f64 - var).abs() <= 0.05) {
+                        if !((stats[ci].sm2[k] as f64 - var).abs() <= 2e-3) {
                             why.push(format!("shifted by 4000: chain {ci} param {k}: variance {} expected {var}", stats[ci].sm2[k]));
                         }
                     }
@@ -114,7 +114,7 @@ pub fn replay(args: &[String]) {
                         let e = c["rn"][k].as_i64().unwrap() as f64 / c["rd"][k].as_i64().unwrap() as f64;
                         for (name, v) in [("collect_rhat", cr[k]), ("MultiChainTracker::rhat", mr[k])] {
                             let r2 = (v as f64).powi(2);
-                            if !((r2 - e).abs() <= 5e-2 * e.max(1.0)) {
+                            if !((r2 - e).abs() <= 4e-3 * e.max(1.0)) {
                                 why.push(format!("shifted by 4000: param {k}: {name} = {v} (squared {r2}), expected squared {e}"));
                             }
                         }
